@@ -203,8 +203,12 @@ func runVacuum(x *Exec, prop string) {
 					isCur = isCur || c == name
 				}
 				if cr := m.VerObj[name].Created; !isCur && !cstar.IsZero() && (cr == nil || cr.Before(cstar)) {
-					x.Probe("old-version-still-present")
-					continue
+					// (the stamp the version carries says it is older than the cutoff; what the committing client's
+					// clock showed when it issued the committing statement must not say otherwise)
+					if st, ok := m.StmtStart[name]; !ok || st.Before(cstar) {
+						x.Probe("old-version-still-present")
+						continue
+					}
 				}
 				x.Check()
 				wt, err := m.Lay.WalkVersion(bucket, name)
@@ -255,6 +259,7 @@ func runVacuum(x *Exec, prop string) {
 			w.Solo(vc, func() {
 				rowsBefore, _ = vc.Query("select * from " + t)
 				versBefore, _ = vc.Versions(t)
+				m.BeginStmt(vc)
 				vres, verr = vc.Query("select * from s3db_vacuum(?, ?)", t, FmtTime(cut))
 				rowsAfter, _ = vc.Query("select * from " + t)
 				versAfter, _ = vc.Versions(t)
@@ -297,6 +302,16 @@ func runVacuum(x *Exec, prop string) {
 			if RowsString(rowsBefore) != RowsString(rowsAfter) {
 				x.Fail("C09-rows-changed", "%s changed the rows on its own connection: %s -> %s", desc, RowsString(rowsBefore), RowsString(rowsAfter))
 				return
+			}
+			for _, v := range versAfter {
+				// what the connection names as its version after the vacuum is a version somebody can open
+				x.Check()
+				_, cur := w.S.Bucket[m.Lay.Current+v]
+				_, mer := w.S.Bucket[m.Lay.Merged+v]
+				if !cur && !mer {
+					x.Fail("C09-reported-version-missing", "%s succeeded; s3db_version() on the vacuuming connection then names %s, which is stored neither under current/ nor under merged/", desc, v)
+					return
+				}
 			}
 			allAfter, err := readRO()
 			if err != nil {
@@ -534,6 +549,15 @@ func checkReclaimed(x *Exec, m *MWRun, before, after map[string][]byte, versBefo
 		if !condemned(v, cut, false) {
 			x.Fail("C10-version-over-reclaimed", "%s: version %s has a successor created after the cutoff (or none at all) but its object under merged/ was deleted", desc, v)
 			return false
+		}
+		for name, r := range m.VerObj {
+			for _, par := range r.Parents {
+				if st, ok := m.StmtStart[name]; ok && par == v && st.After(cut) {
+					x.Fail("C10-version-over-reclaimed", "%s: version %s was deleted although its successor %s was committed by a statement issued at %s (by the committing client's clock), after the cutoff; the successor's stamp says %s",
+						desc, v, name, FmtTime(st), FmtTime(*r.Created))
+					return false
+				}
+			}
 		}
 		x.Probe("reclaimed-version-was-superseded-before-cutoff")
 	}
